@@ -69,8 +69,12 @@ async fn settle(db: &Database) {
 }
 
 pub fn run(v: &Value) -> Value {
+    // "dir": run on this (existing or new) directory and leave it in place; default: a temp dir
     let dir = tempfile::tempdir().unwrap();
-    let path = dir.path().join("db");
+    let path = match v["dir"].as_str() {
+        Some(d) => std::path::PathBuf::from(d),
+        None => dir.path().join("db"),
+    };
     let rt = tokio::runtime::Builder::new_current_thread()
         .enable_all()
         .start_paused(true)
@@ -96,11 +100,27 @@ pub fn run(v: &Value) -> Value {
                 }
             });
         }
+        // "markers": true makes every step visible in a system-call trace: a failing open of
+        // /__rlh_marker__/<i>_begin and <i>_end brackets step i
+        let markers = v["markers"].as_bool() == Some(true);
+        let mark = |s: String| {
+            if markers {
+                let _ = std::fs::File::open(format!("/__rlh_marker__/{s}"));
+            }
+        };
+        mark("open_begin".into());
         let mut db = Some(open(v, &path).await);
         if atomic {
             settle(db.as_ref().unwrap()).await;
         }
+        mark("open_end".into());
+        let mut step_no = 0usize;
         for step in v["steps"].as_array().unwrap() {
+            if step_no > 0 {
+                mark(format!("{}_end", step_no - 1));
+            }
+            mark(format!("{step_no}_begin"));
+            step_no += 1;
             if atomic {
                 // (shutdown waits for the background tasks, which only notice it when their timer fires)
                 let sleeping = step.get("sleep_ms").is_some()
@@ -253,6 +273,33 @@ pub fn run(v: &Value) -> Value {
                     Ok(None) => outs.push(json!({"layout": null})),
                     Err(e) => outs.push(json!({"err": errstr(&e)})),
                 }
+            } else if let Some(to) = step["snapshot"].as_str() {
+                // copy the database directory as it is now (a crash image is built from such copies)
+                // (a background vacuum may remove a stale row-set directory while it is copied:
+                // entries that vanish are skipped)
+                fn cp(from: &Path, to: &Path) -> std::io::Result<()> {
+                    std::fs::create_dir_all(to)?;
+                    let rd = match std::fs::read_dir(from) {
+                        Ok(rd) => rd,
+                        Err(e) if e.kind() == std::io::ErrorKind::NotFound => return Ok(()),
+                        Err(e) => return Err(e),
+                    };
+                    for e in rd {
+                        let Ok(e) = e else { continue };
+                        if e.path().is_dir() {
+                            cp(&e.path(), &to.join(e.file_name()))?;
+                        } else if let Err(err) = std::fs::copy(e.path(), to.join(e.file_name())) {
+                            if err.kind() != std::io::ErrorKind::NotFound {
+                                return Err(err);
+                            }
+                        }
+                    }
+                    Ok(())
+                }
+                match cp(&path, Path::new(to)) {
+                    Ok(()) => outs.push(json!({"snapshot": to})),
+                    Err(e) => outs.push(json!({"err": errstr(e)})),
+                }
             } else if let Some(f) = step["read"].as_str() {
                 // the text of a (small) file of the database directory
                 match std::fs::read(path.join(f)) {
@@ -262,6 +309,9 @@ pub fn run(v: &Value) -> Value {
             } else if step["ls"].as_bool() == Some(true) {
                 outs.push(json!({"ls": list_dir(&path)}));
             }
+        }
+        if step_no > 0 {
+            mark(format!("{}_end", step_no - 1));
         }
         busy.store(false, std::sync::atomic::Ordering::SeqCst);
         if let Some(d) = db.take() {
